@@ -217,7 +217,7 @@ class ArgsFormatBuilder(object):
         arguments = self.get_arguments(include_base)
 
         if isinstance(name, int):
-            return name < len(arguments)
+            return 0 <= name < len(arguments)
 
         return name in arguments
 
@@ -263,7 +263,7 @@ class ArgsFormatBuilder(object):
         if isinstance(name, int):
             arguments = list(self.get_arguments(include_base).values())
 
-            if name >= len(arguments):
+            if name < 0 or name >= len(arguments):
                 raise NoSuchArgumentException(name)
         else:
             arguments = self.get_arguments(include_base)
